@@ -37,3 +37,4 @@ void vfr_make_integer(opensmt::FastRational *x, uint8_t kinds);
 uint8_t vfr_is_uint(opensmt::FastRational *r, uint32_t v);
 }
 extern "C" { uint8_t vfr_int_bounds_ok(uint8_t strict, uint8_t sc, uint8_t sub, uint8_t slb); }
+extern "C" { uint8_t vfr_is_euclid_div(opensmt::FastRational *q, uint8_t sn, uint8_t sd); uint8_t vfr_is_euclid_mod(opensmt::FastRational *m, uint8_t sn, uint8_t sd); }
